@@ -13,7 +13,8 @@ EXPLANATION = ("Table.to_bytes is executed symbolically on tables built by the r
                "codes, overlapping prefixes a/b/ab/abc) for EVERY text of length 0..5 (and escape-bearing texts up to 7) over the table alphabet, "
                "escape characters and unknown characters, and proved equal to the reference longest-match encoding -- unbounded in characters, "
                "bounded in text length and in the table.  Scope.get_table is proved by induction with an abstract enclosing chain; TextNode's "
-               "layout size equals its emitted length.  Table files and the decode round trip are the bounded part.")
+               "layout size equals its emitted length.  Table files and the decode round trip are the bounded part."
+               "  `.table` loads into the scope it is written in (block, loop iteration, named scope) and leaves the enclosing scope's table alone; the escape wins over a table entry `[`.")
 TRUSTED = ["vf/specs/table_ref.py (reference encoder from the statement)", "regex model: concrete subjects go through Python's re; symbolic subjects only for the "
            "escape pattern ^\\[0x(?P<byte>[0-9a-fA-F]+)]"]
 ASSUMPTIONS = ["bounded in structure: 3 fixed tables, text length <= 5 (7 with an escape)", "Address.__add__ through its contract (C04)",
